@@ -1,2 +1,122 @@
-(* C25 — WebSocket sessions follow graphql-ws / graphql-transport-ws. *)
-From AG Require Import Ws.
+(* C25 — WebSocket sessions follow the graphql-ws (subscriptions-transport-ws,
+   [Legacy]) and graphql-transport-ws ([Modern]) protocols.
+   Only property theorems here: each is closed by [exact], its statement is
+   pinned by [Check] and its assumptions are printed.
+   [run pr ka sys0 acts] is what the session model (Ws.v, a transcription of
+   WebSocket::poll_next) answers to an arbitrary list of actions: client
+   frames, callback answers, stream items/ends, timer expiries and polls with
+   arbitrary stream choices.  [accepts pr ka q acts obs] runs the protocol
+   monitor (the specification) over the conversation. *)
+From AG Require Import Ws WsProofs.
+Open Scope N_scope.
+
+(* every session is accepted by the monitor that tolerates exactly the three
+   recorded deviations (any protocol, any keep-alive setting, any history,
+   any schedule of polls and stream choices) *)
+Theorem C25_conforms : forall pr ka acts,
+    accepts pr ka quirks_today acts (run pr ka sys0 acts) = true.
+Proof. exact conforms. Qed.
+
+(* outside the known classes the protocols are followed as written: close
+   codes 4429 / 4401 / 4409 / 4400 included *)
+Theorem C25_strict_outside_known : forall pr ka acts,
+    known_class pr ka acts (run pr ka sys0 acts) = 0 ->
+    accepts pr ka quirks_none acts (run pr ka sys0 acts) = true.
+Proof. exact strict_outside_known. Qed.
+
+(* subscriptions-transport-ws sessions are always accepted by the strict monitor *)
+Theorem C25_legacy_strict : forall ka acts,
+    accepts Legacy ka quirks_none acts (run Legacy ka sys0 acts) = true.
+Proof. exact legacy_strict. Qed.
+
+(* nothing is sent or read after a close frame / connection_error / end *)
+Theorem C25_silent_after_close : forall pr ka acts pre k r post,
+    run pr ka sys0 acts = pre ++ ObsPoll k r :: post -> terminal r = true ->
+    forallb quiet post = true.
+Proof. exact silent_after_close. Qed.
+
+(* data / next / complete only after connection_ack *)
+Theorem C25_ops_only_after_ack : forall pr ka acts pre o post,
+    run pr ka sys0 acts = pre ++ o :: post -> is_op o = true -> existsb is_ack pre = true.
+Proof. exact ops_only_after_ack. Qed.
+
+(* connection_ack at most once *)
+Theorem C25_single_ack : forall pr ka acts pre o post,
+    run pr ka sys0 acts = pre ++ o :: post -> is_ack o = true ->
+    existsb is_ack pre = false /\ existsb is_ack post = false.
+Proof. exact single_ack. Qed.
+
+(* a second connection_init closes with 4429 / connection_error *)
+Theorem C25_second_init_closes : forall pr ka s e c inb,
+    closed s = false -> (ka && timer_fired e) = false -> init_fut s = false -> ping_fut s = false ->
+    on_init s = false -> inbox e = CInit :: inb ->
+    exists s' e', poll pr ka s e c =
+                  (s', e', 1%nat, RMsg match pr with Legacy => OConnErr 2 | Modern => OClose 4429 end) /\
+                  closed s' = true.
+Proof. exact second_init_closes. Qed.
+
+(* every data/next message is the oldest undelivered item of the source stream
+   of the operation running under its id, in the protocol's message type;
+   complete frees the id (so nothing more is sent for that operation) *)
+Theorem C25_data_only_for_live : forall pr ka s e c s' e' k o,
+    poll pr ka s e c = (s', e', k, RMsg o) ->
+    match o with
+    | OData id i n | ONext id i n =>
+        assoc id (streams s') = Some i /\ (exists b en, assoc i (chans e) = Some (n :: b, en)) /\
+        o = data_msg pr id i n
+    | OComplete id => assoc id (streams s') = None
+    | _ => True
+    end.
+Proof. exact data_only_for_live. Qed.
+
+(* known findings: the full statement is false of the faithful model *)
+Theorem C25_dup_id_refuted :
+  run Modern false sys0 w_dup =
+    [ObsEnv; ObsPoll 1 RPending; ObsEnv; ObsPoll 0 (RMsg OAck); ObsEnv; ObsPoll 1 RPending;
+     ObsEnv; ObsPoll 0 (RMsg (ONext 0 0 7)); ObsEnv; ObsPoll 1 RPending; ObsEnv; ObsEnv;
+     ObsPoll 0 (RMsg (ONext 0 1 9)); ObsPoll 0 RPending] /\
+  accepts Modern false quirks_none w_dup (run Modern false sys0 w_dup) = false /\
+  known_class Modern false w_dup (run Modern false sys0 w_dup) = 1.
+Proof. exact dup_id_refuted. Qed.
+
+Theorem C25_unauth_refuted :
+  run Modern false sys0 w_unauth = [ObsEnv; ObsPoll 1 (RMsg (OClose 1011)); ObsPoll 0 REnd] /\
+  accepts Modern false quirks_none w_unauth (run Modern false sys0 w_unauth) = false /\
+  known_class Modern false w_unauth (run Modern false sys0 w_unauth) = 2.
+Proof. exact unauth_refuted. Qed.
+
+Theorem C25_bad_frame_refuted :
+  run Modern false sys0 w_bad = [ObsEnv; ObsPoll 1 (RMsg (OClose 1002)); ObsPoll 0 REnd] /\
+  accepts Modern false quirks_none w_bad (run Modern false sys0 w_bad) = false /\
+  known_class Modern false w_bad (run Modern false sys0 w_bad) = 3.
+Proof. exact bad_frame_refuted. Qed.
+
+Theorem C25_nonvacuous :
+  run Modern true sys0 w_life =
+    [ObsEnv; ObsPoll 1 RPending; ObsEnv; ObsPoll 0 (RMsg OAck); ObsEnv; ObsEnv; ObsPoll 2 RPending;
+     ObsEnv; ObsEnv; ObsPoll 0 (RMsg (ONext 1 1 6)); ObsPoll 0 (RMsg (ONext 0 0 5));
+     ObsEnv; ObsPoll 0 (RMsg (OComplete 0)); ObsEnv; ObsPoll 1 (RMsg (OComplete 1));
+     ObsEnv; ObsEnv; ObsPoll 1 (RMsg OPong); ObsEnv; ObsPoll 0 REnd; ObsSkip] /\
+  known_class Modern true w_life (run Modern true sys0 w_life) = 0 /\
+  accepts Modern true quirks_none w_life (run Modern true sys0 w_life) = true.
+Proof. exact nonvacuous. Qed.
+
+Check C25_conforms : forall pr ka acts, accepts pr ka quirks_today acts (run pr ka sys0 acts) = true.
+Check C25_strict_outside_known : forall pr ka acts,
+    known_class pr ka acts (run pr ka sys0 acts) = 0 ->
+    accepts pr ka quirks_none acts (run pr ka sys0 acts) = true.
+Check C25_silent_after_close : forall pr ka acts pre k r post,
+    run pr ka sys0 acts = pre ++ ObsPoll k r :: post -> terminal r = true -> forallb quiet post = true.
+
+Print Assumptions C25_conforms.
+Print Assumptions C25_strict_outside_known.
+Print Assumptions C25_legacy_strict.
+Print Assumptions C25_silent_after_close.
+Print Assumptions C25_ops_only_after_ack.
+Print Assumptions C25_single_ack.
+Print Assumptions C25_second_init_closes.
+Print Assumptions C25_data_only_for_live.
+Print Assumptions C25_dup_id_refuted.
+Print Assumptions C25_unauth_refuted.
+Print Assumptions C25_bad_frame_refuted.
+Print Assumptions C25_nonvacuous.
